@@ -193,7 +193,10 @@ func (e *Explore) Run(ctx context.Context, con int) error {
 }
 
 func (e *Explore) exploreOnce(ctx context.Context, t *exploringTarget) (err error) {
-	defer t.rt.SetScrapeErr(time.Now(), err)
+	// the error must be read when exploreOnce returns, not when defer is declared
+	defer func(start time.Time) {
+		t.rt.SetScrapeErr(start, err)
+	}(time.Now())
 	exploringTotal.WithLabelValues(t.job).Inc()
 	defer func() {
 		exploringTotal.WithLabelValues(t.job).Dec()
